@@ -109,7 +109,9 @@ def gen_rows(rng, table, n=None, max_rows=12, unique_pk=True, null_p=0.15, wide_
             v = gen_value(rng, c, null_p=null_p)
             if c.pk:
                 if wide_pk:
-                    v = rng.randint(-50, 200)
+                    # (the key column is not enforced unique: without unique_pk a small domain
+                    # yields duplicate keys inside one INSERT and across INSERTs)
+                    v = rng.randint(-50, 200) if unique_pk else rng.randint(0, 6)
                 if unique_pk:
                     tries = 0
                     while v in used and tries < 30:
@@ -141,11 +143,11 @@ def insert_stmts(rng, table, rows, max_stmts=4):
     return out
 
 
-def setup_statements(rng, tables, max_rows=12, max_stmts=4, null_p=0.15, wide_pk=False):
+def setup_statements(rng, tables, max_rows=12, max_stmts=4, null_p=0.15, wide_pk=False, unique_pk=True):
     stmts = []
     for t in tables:
         stmts.append(t.ddl())
-        t.rows = gen_rows(rng, t, max_rows=max_rows, null_p=null_p, wide_pk=wide_pk)
+        t.rows = gen_rows(rng, t, max_rows=max_rows, null_p=null_p, wide_pk=wide_pk, unique_pk=unique_pk)
         stmts.extend(insert_stmts(rng, t, t.rows, max_stmts))
     return stmts
 
